@@ -260,6 +260,10 @@ def run(ctx):
                         inc = incs[0]
                         pos = isinstance(ifn, ast.If) and ifn.test is conn[0] and par.branch_of(inc, ifn) == "body"
                         negd = isinstance(ifn, ast.If) and isinstance(ifn.test, ast.UnaryOp) and par.branch_of(inc, ifn) == "body"
+                        # the counter starts at 0
+                        cdefs = [s_ for s_ in sc.assigns.get(txt(inc.target), []) if isinstance(s_, ast.Assign)]
+                        if len(cdefs) == 1 and astx.const_value(cdefs[0].value) is not None and astx.const_value(cdefs[0].value) != 0:
+                            o.violated(f, cdefs[0], f"the count starts at {astx.const_value(cdefs[0].value)!r}, not at 0: every result is off by that amount")
                         if pos and isinstance(inc.op, ast.Add) and astx.const_value(inc.value) == 1:
                             o.holds(f, inc, "counts +1 exactly when the remainder is connected")
                         elif negd:
